@@ -97,13 +97,20 @@ func (s bitmap64) And(provider Provider[uint64]) {
 		s.bitmap.And(typedProvider.bitmap)
 
 	case Duplex[uint64]:
+		// Removing values while iterating the bitmap skips elements; collect them first
+		var toRemove []uint64
+
 		s.Each(func(nextValue uint64) bool {
 			if !typedProvider.Contains(nextValue) {
-				s.Remove(nextValue)
+				toRemove = append(toRemove, nextValue)
 			}
 
 			return true
 		})
+
+		for _, nextValue := range toRemove {
+			s.Remove(nextValue)
+		}
 	}
 }
 func (s bitmap64) Or(provider Provider[uint64]) {
@@ -135,12 +142,19 @@ func (s bitmap64) AndNot(provider Provider[uint64]) {
 		s.bitmap.AndNot(typedProvider.bitmap)
 
 	case Duplex[uint64]:
+		// Removing values while iterating the bitmap skips elements; collect them first
+		var toRemove []uint64
+
 		s.Each(func(nextValue uint64) bool {
 			if typedProvider.Contains(nextValue) {
-				s.Remove(nextValue)
+				toRemove = append(toRemove, nextValue)
 			}
 
 			return true
 		})
+
+		for _, nextValue := range toRemove {
+			s.Remove(nextValue)
+		}
 	}
 }
